@@ -13,6 +13,8 @@
    as a transition system of atomic steps.  A run is a list of actions: every interleaving of the
    run loop, the goroutines, the application's Stop call, the trusted peer and the untrusted peer.
    Executable definitions only.
+   monitorUntrustedNodes (MU) is one thread here; what it does inside - untrustedLock, the list of untrusted nodes,
+   scan(), IsActive, CleanupBlock - is the second, separate transition system `mstep` further down.
 
    Faithful to the code as it is, including its hazards:
    - a goroutine started by Run is first "started" (TSpawned) and increments its counter only with its
@@ -571,6 +573,275 @@ Fixpoint settle (fuel : nat) (listen skip_pu skip_pb in_body skip_so : bool) (w 
            end
   end.
 
+(* ================================================================================================ *)
+(* monitorUntrustedNodes in detail (node.go 1086-1233 with scan 1236-1296, addUntrustedNode 1298-1356,
+   CleanupBlock 766-779, UntrustedNode.Run / IsActive / Stop): the goroutine MU of the system above, now
+   with its mutex node.untrustedLock, the LIST node.untrustedNodes, the scanning flag and the untrusted
+   nodes it starts.  A small transition system of its own:
+     - the monitor's program counter (one step per lock region / test / wait);
+     - untrustedLock is held by the monitor from its Lock to the Unlock after pruning (m_lock); every
+       other holder (addUntrustedNode's append, CleanupBlock, "stop all") is one atomic step that needs
+       the lock to be free;
+     - an untrusted node is dialling (its Run holds the node's own lock across connect), active or done;
+       it is in the list or not; scan()'s nodes are never in the list;
+     - pruning asks IsActive of every listed node: that call waits for a node that is dialling (it needs
+       the lock Run holds) - the monitor's step is not enabled then;
+     - CleanupBlock ranges over the LIST: a node that is not listed keeps the announcement of a confirmed
+       tx (n_stale); asking the peer for such a tx is the bad event (m_bad).
+   Switches (false = the code as it is):
+     lock_early     untrustedLock is taken BEFORE the stop test that follows scan(), and the loop is left with
+                    the lock held                                                          (seeded/C19_6)
+     dial_unlocked  Run does not hold the node's lock across the dial: IsActive answers false for a node that
+                    is dialling, the monitor drops it from the list, the node then runs unlisted  (seeded/C14_5)
+   Faithful to the code as it is: scan() sets the flag node.scanning and returns WITHOUT clearing it when
+   there is no unchecked address (the next scans are skipped: `if node.scanning return`).
+   Not modelled: the random choice among addresses (the lowest index stands for it); a goroutine started
+   for a node takes the node's lock before the monitor's next pass (2 s later) - the same kind of scheduling
+   hypothesis as `prompt`. *)
+Inductive ust := UDial | UActive | UDone.
+Record unode := UNode {
+  n_addr : nat; n_st : ust; n_listed : bool; n_stop : bool; n_scan : bool;
+  n_trk : list Z;       (* announcements remembered by the node's tracker *)
+  n_stale : list Z      (* ... of txs confirmed by a block whose clean-up did not reach this node *)
+}.
+Record uaddr := UAddr {
+  a_kind : Z;           (* scripted peer behind the address (scenario layer): 1 good, 2 fresh, 3 slow dial, 4 silent, 5 told later *)
+  a_score : Z; a_checked : bool; a_used : bool;
+  a_rel : bool;         (* slow peer: its hanging dial may complete *)
+  a_open : bool         (* the peer listens *)
+}.
+Inductive mpc := MTop | MScan | MScanWait | MPost | MLock | MPrune | MAdd | MSleep | MStopAll | MWait | MDone.
+Record mst := MSt {
+  m_pc : mpc; m_lock : bool; m_stop : bool; m_ready : bool; m_flag : bool; m_bc : bool; m_want : nat;
+  m_addrs : list uaddr; m_nodes : list unode; m_bad : bool
+}.
+Definition mst_init : mst := MSt MTop false false false false false 0 [] [] false.
+
+Inductive mact :=
+| AMon                              (* the monitor's next step *)
+| ATimer                            (* the sleep / the scan window of the monitor is over *)
+| ANode (i : nat) (ok : bool)       (* node i's next step; ok: its dial succeeds *)
+| ANodeEnd (i : nat)                (* node i stops by itself (peer closed, time-out) *)
+| AMStop | AMRestart | AMReady (b : bool) | AMWant (n : nat)
+| AMInv (i : nat) (t : Z)           (* node i remembers an announcement *)
+| AMBlock (ts : list Z)             (* Node.CleanupBlock for a processed block *)
+| AMCheck (i : nat) (ts : list Z)   (* node i's tracker check asks its peer for ts *)
+| AMAddr (a : uaddr) | AMBcast | AMRelease (a : nat) | AMClose (a : nat).
+
+Fixpoint upd {A} (i : nat) (f : A -> A) (l : list A) : list A :=
+  match l, i with
+  | [], _ => []
+  | x :: l', O => f x :: l'
+  | x :: l', S i' => x :: upd i' f l'
+  end.
+Definition zmem (t : Z) (l : list Z) : bool := existsb (Z.eqb t) l.
+Definition zdiff (l ts : list Z) : list Z := filter (fun t => negb (zmem t ts)) l.
+Definition zinter (l ts : list Z) : list Z := filter (fun t => zmem t ts) l.
+
+Definition mset_pc (s : mst) (p : mpc) : mst :=
+  MSt p (m_lock s) (m_stop s) (m_ready s) (m_flag s) (m_bc s) (m_want s) (m_addrs s) (m_nodes s) (m_bad s).
+Definition mset_pc_lock (s : mst) (p : mpc) (l : bool) : mst :=
+  MSt p l (m_stop s) (m_ready s) (m_flag s) (m_bc s) (m_want s) (m_addrs s) (m_nodes s) (m_bad s).
+Definition mset_nodes (s : mst) (l : list unode) : mst :=
+  MSt (m_pc s) (m_lock s) (m_stop s) (m_ready s) (m_flag s) (m_bc s) (m_want s) (m_addrs s) l (m_bad s).
+Definition mset_addrs (s : mst) (l : list uaddr) : mst :=
+  MSt (m_pc s) (m_lock s) (m_stop s) (m_ready s) (m_flag s) (m_bc s) (m_want s) l (m_nodes s) (m_bad s).
+Definition mset_flag (s : mst) (b : bool) : mst :=
+  MSt (m_pc s) (m_lock s) (m_stop s) (m_ready s) b (m_bc s) (m_want s) (m_addrs s) (m_nodes s) (m_bad s).
+
+Definition n_set_stop (n : unode) : unode := UNode (n_addr n) (n_st n) (n_listed n) true (n_scan n) (n_trk n) (n_stale n).
+Definition n_set_st (n : unode) (st : ust) : unode := UNode (n_addr n) st (n_listed n) (n_stop n) (n_scan n) (n_trk n) (n_stale n).
+Definition n_unlist (n : unode) : unode := UNode (n_addr n) (n_st n) false (n_stop n) (n_scan n) (n_trk n) (n_stale n).
+Definition n_set_trk (n : unode) (trk stale : list Z) : unode := UNode (n_addr n) (n_st n) (n_listed n) (n_stop n) (n_scan n) trk stale.
+Definition a_rescore (a : uaddr) (d : Z) : uaddr := UAddr (a_kind a) (a_score a + d) true (a_used a) (a_rel a) (a_open a).
+Definition a_set_used (a : uaddr) : uaddr := UAddr (a_kind a) (a_score a) (a_checked a) true (a_rel a) (a_open a).
+Definition a_set_rel (a : uaddr) : uaddr := UAddr (a_kind a) (a_score a) (a_checked a) (a_used a) true (a_open a).
+Definition a_set_closed (a : uaddr) : uaddr := UAddr (a_kind a) (a_score a) (a_checked a) (a_used a) (a_rel a) false.
+
+Definition is_done (n : unode) : bool := match n_st n with UDone => true | _ => false end.
+Definition is_dial (n : unode) : bool := match n_st n with UDial => true | _ => false end.
+Definition scan_done (l : list unode) : bool := forallb (fun n => negb (n_scan n) || is_done n) l.
+Definition regular_done (l : list unode) : bool := forallb (fun n => n_scan n || is_done n) l.
+Definition listed_dialling (l : list unode) : bool := existsb (fun n => n_listed n && is_dial n) l.
+Definition listed_count (l : list unode) : nat := length (filter n_listed l).
+Definition unchecked (a : uaddr) : bool := (a_score a =? 0) && negb (a_checked a).
+(* addresses by index *)
+Fixpoint indexed {A} (i : nat) (l : list A) : list (nat * A) :=
+  match l with [] => [] | x :: l' => (i, x) :: indexed (S i) l' end.
+Definition fresh_nodes (l : list uaddr) : list unode :=
+  map (fun ia => UNode (fst ia) UDial false false true [] []) (filter (fun ia => unchecked (snd ia)) (indexed 0 l)).
+Definition pick_addr (l : list uaddr) : option nat :=
+  match filter (fun ia => (1 <=? a_score (snd ia)) && negb (a_used (snd ia))) (indexed 0 l) with
+  | [] => None
+  | ia :: _ => Some (fst ia)
+  end.
+
+Section UMon.
+Variables (lock_early dial_unlocked : bool).
+
+(* IsActive as the monitor sees it *)
+Definition inactive (n : unode) : bool := match n_st n with UDone => true | UDial => true | UActive => false end.
+Definition prune (l : list unode) : list unode := map (fun n => if n_listed n && inactive n then n_unlist n else n) l.
+Definition stop_scan (l : list unode) : list unode := map (fun n => if n_scan n then n_set_stop n else n) l.
+Definition stop_listed (l : list unode) : list unode := map (fun n => if n_listed n then n_set_stop n else n) l.
+Definition shotgun : nat := 10.
+
+Definition mon_step (s : mst) : option mst :=
+  match m_pc s with
+  | MTop =>
+      if m_stop s then Some (mset_pc s MStopAll)
+      else if negb (m_ready s) then Some (mset_pc s MSleep)
+      else if m_bc s || m_flag s then Some (mset_pc s MPost)
+      else match fresh_nodes (m_addrs s) with
+           | [] => Some (mset_pc (mset_flag s true) MPost)                        (* the flag stays set *)
+           | fr => Some (mset_pc (mset_nodes (mset_flag s true) (m_nodes s ++ fr)) MScan)
+           end
+  | MScan => if m_stop s then Some (mset_pc (mset_nodes s (stop_scan (m_nodes s))) MScanWait) else None
+  | MScanWait => if scan_done (m_nodes s) then Some (mset_pc (mset_flag s false) MPost) else None
+  | MPost =>
+      if lock_early then
+        if m_lock s then None
+        else if m_stop s then Some (mset_pc_lock s MStopAll true)               (* break with the lock held *)
+        else if negb (m_ready s) then Some (mset_pc s MSleep) else Some (mset_pc_lock s MPrune true)
+      else if m_stop s then Some (mset_pc s MStopAll) else Some (mset_pc s MLock)
+  | MLock =>
+      if m_lock s then None
+      else if negb (m_ready s) then Some (mset_pc s MSleep) else Some (mset_pc_lock s MPrune true)
+  | MPrune =>
+      if negb dial_unlocked && listed_dialling (m_nodes s) then None          (* IsActive waits for the dial *)
+      else Some (mset_pc_lock (mset_nodes s (prune (m_nodes s))) MAdd false)
+  | MAdd =>
+      if m_stop s then Some (mset_pc s MStopAll)
+      else if m_lock s then None
+      else if Nat.ltb (listed_count (m_nodes s)) (if m_bc s then shotgun else m_want s) then
+        match pick_addr (m_addrs s) with
+        | Some a => Some (mset_nodes (mset_addrs s (upd a a_set_used (m_addrs s)))
+                                    (m_nodes s ++ [UNode a UDial true false false [] []]))
+        | None => Some (mset_pc s MSleep)
+        end
+      else Some (mset_pc s MSleep)
+  | MSleep => if m_stop s then Some (mset_pc s MTop) else None
+  | MStopAll => if m_lock s then None else Some (mset_pc (mset_nodes s (stop_listed (m_nodes s))) MWait)
+  | MWait => if regular_done (m_nodes s) then Some (mset_pc s MDone) else None
+  | MDone => None
+  end.
+
+Definition node_step (s : mst) (i : nat) (ok : bool) : option mst :=
+  match nth_error (m_nodes s) i with
+  | None => None
+  | Some n =>
+      match n_st n with
+      | UDial =>
+          if ok && negb (n_stop n) then
+            Some (mset_nodes (if n_scan n then s else mset_addrs s (upd (n_addr n) (fun a => a_rescore a 5) (m_addrs s)))
+                            (upd i (fun n => n_set_st n UActive) (m_nodes s)))
+          else Some (mset_nodes (if ok then s else mset_addrs s (upd (n_addr n) (fun a => a_rescore a (-1)) (m_addrs s)))
+                               (upd i (fun n => n_set_st n UDone) (m_nodes s)))
+      | UActive =>
+          if n_stop n then Some (mset_nodes s (upd i (fun n => n_set_st n UDone) (m_nodes s)))
+          else if n_scan n then                                           (* "Found peer": the scanning node stops itself *)
+            Some (mset_nodes (mset_addrs s (upd (n_addr n) (fun a => a_rescore a 5) (m_addrs s)))
+                            (upd i (fun n => n_set_st n UDone) (m_nodes s)))
+          else None
+      | UDone => None
+      end
+  end.
+
+Definition timer_step (s : mst) : option mst :=
+  match m_pc s with
+  | MScan => Some (mset_pc (mset_nodes s (stop_scan (m_nodes s))) MScanWait)
+  | MSleep => Some (mset_pc s MTop)
+  | _ => None
+  end.
+
+Definition block_node (ts : list Z) (n : unode) : unode :=
+  if is_done n then n
+  else if n_listed n then n_set_trk n (zdiff (n_trk n) ts) (n_stale n)
+  else n_set_trk n (n_trk n) (n_stale n ++ zinter (n_trk n) ts).
+
+Definition env_step (s : mst) (a : mact) : option mst :=
+  match a with
+  | AMStop => Some (MSt (m_pc s) (m_lock s) true (m_ready s) (m_flag s) (m_bc s) (m_want s) (m_addrs s) (m_nodes s) (m_bad s))
+  | AMRestart => match m_pc s with
+                 | MDone => Some (MSt MTop (m_lock s) false false (m_flag s) (m_bc s) (m_want s) (m_addrs s) (m_nodes s) (m_bad s))
+                 | _ => None
+                 end
+  | AMReady b => Some (MSt (m_pc s) (m_lock s) (m_stop s) b (m_flag s) (m_bc s) (m_want s) (m_addrs s) (m_nodes s) (m_bad s))
+  | AMWant n => Some (MSt (m_pc s) (m_lock s) (m_stop s) (m_ready s) (m_flag s) (m_bc s) n (m_addrs s) (m_nodes s) (m_bad s))
+  | AMBcast => Some (MSt (m_pc s) (m_lock s) (m_stop s) (m_ready s) (m_flag s) true (m_want s) (m_addrs s) (m_nodes s) (m_bad s))
+  | AMAddr a => Some (mset_addrs s (m_addrs s ++ [a]))
+  | AMRelease a => Some (mset_addrs s (upd a a_set_rel (m_addrs s)))
+  | AMClose a => Some (mset_addrs s (upd a a_set_closed (m_addrs s)))
+  | ANodeEnd i => match nth_error (m_nodes s) i with
+                  | Some n => match n_st n with
+                              | UActive => Some (mset_nodes s (upd i (fun n => n_set_st n UDone) (m_nodes s)))
+                              | _ => None
+                              end
+                  | None => None
+                  end
+  | AMInv i t => match nth_error (m_nodes s) i with
+                 | Some n => match n_st n with
+                             | UActive => if n_scan n then None
+                                          else Some (mset_nodes s (upd i (fun n => n_set_trk n (n_trk n ++ [t]) (n_stale n)) (m_nodes s)))
+                             | _ => None
+                             end
+                 | None => None
+                 end
+  | AMBlock ts => if m_lock s then None else Some (mset_nodes s (map (block_node ts) (m_nodes s)))
+  | AMCheck i ts => match nth_error (m_nodes s) i with
+                    | Some n => match n_st n with
+                                | UActive =>
+                                    let bad := existsb (fun t => zmem t (n_stale n)) ts in
+                                    Some (MSt (m_pc s) (m_lock s) (m_stop s) (m_ready s) (m_flag s) (m_bc s) (m_want s) (m_addrs s)
+                                              (upd i (fun n => n_set_trk n (zdiff (n_trk n) ts) (zdiff (n_stale n) ts)) (m_nodes s))
+                                              (m_bad s || bad))
+                                | _ => None
+                                end
+                    | None => None
+                    end
+  | _ => None
+  end.
+
+Definition mstep_opt (s : mst) (a : mact) : option mst :=
+  match a with
+  | AMon => mon_step s
+  | ATimer => timer_step s
+  | ANode i ok => node_step s i ok
+  | _ => env_step s a
+  end.
+Definition menabled (s : mst) (a : mact) : bool := match mstep_opt s a with Some _ => true | None => false end.
+Definition mstep (s : mst) (a : mact) : mst := match mstep_opt s a with Some s' => s' | None => s end.
+Fixpoint mrun_from (s : mst) (l : list mact) : mst := match l with [] => s | a :: l' => mrun_from (mstep s a) l' end.
+Definition mrun (l : list mact) : mst := mrun_from mst_init l.
+
+(* the steps of the monitor and of the nodes it started (what the fairness hypothesis is about) *)
+Definition mthread_act (a : mact) : bool := match a with AMon | ANode _ _ => true | _ => false end.
+
+(* rank: what is left to do once the stop flag is set *)
+Definition pc_rank (p : mpc) : nat :=
+  match p with
+  | MScan => 11 | MScanWait => 10 | MPost => 9 | MLock => 8 | MPrune => 7 | MAdd => 6 | MSleep => 5 | MTop => 4
+  | MStopAll => 3 | MWait => 2 | MDone => 0
+  end.
+Definition n_rank (n : unode) : nat := match n_st n with UDial => 2 | UActive => 1 | UDone => 0 end.
+Fixpoint nodes_rank (l : list unode) : nat := match l with [] => 0 | n :: l' => n_rank n + nodes_rank l' end.
+Definition mrank (s : mst) : nat := pc_rank (m_pc s) + nodes_rank (m_nodes s).
+
+(* a scheduler: the monitor if it can move, otherwise the first node that can *)
+Fixpoint first_node (s : mst) (i : nat) (l : list unode) : option mact :=
+  match l with
+  | [] => None
+  | n :: l' => if menabled s (ANode i true) then Some (ANode i true) else first_node s (S i) l'
+  end.
+Definition mpick (s : mst) : option mact :=
+  if menabled s AMon then Some AMon else first_node s 0 (m_nodes s).
+Fixpoint mdrive (fuel : nat) (s : mst) : mst :=
+  match fuel with
+  | O => s
+  | S f => match mpick s with Some a => mdrive f (mstep s a) | None => s end
+  end.
+End UMon.
+
 (* bookkeeping of the application-side operations *)
 Record sext := SExt {
   x_seen : list Z;    (* relevant txs tracked by the tx repository (delivered once) *)
@@ -580,7 +851,9 @@ Record sext := SExt {
   x_pend : Z;         (* relevant txs of a burst sent by the peer and not yet read by monitorIncoming *)
   x_ptx : Z;          (* tx of the block whose processing is parked in the output fetcher (-1: none) *)
   x_burst : Z;        (* relevant txs of bursts (delivered, or going to be once the consumer is released) *)
-  x_inv : list (Z * (Z * (bool * bool)))   (* announced txs not held: (t, (getdata requests so far, (also tracked, window passed))) *)
+  x_inv : list (Z * (Z * (bool * bool)));  (* announced txs not held: (t, (getdata requests so far, (also tracked, window passed))) *)
+  x_u : mst;          (* monitorUntrustedNodes, its list and its nodes (the transition system mstep of the code as it is) *)
+  x_uask : list (Z * Z)   (* getdata requests received by the scripted untrusted peers: (peer * 100000 + t, count) *)
 }.
 
 Record scn := Scn {
@@ -602,7 +875,7 @@ Record scn := Scn {
   s_x : sext
 }.
 
-Definition scn_init : scn := Scn sw_init true 0 false (-100) (-1) 0 0 false 0 0 0 0 [] (-1) (SExt [] 0 0 0 0 (-1) 0 []).
+Definition scn_init : scn := Scn sw_init true 0 false (-100) (-1) 0 0 false 0 0 0 0 [] (-1) (SExt [] 0 0 0 0 (-1) 0 [] mst_init []).
 
 Definition with_w (s : scn) (w : sw) : scn :=
   Scn w (s_listen s) (s_acc s) (s_popen s) (s_base s) (s_sent s) (s_served s) (s_tip s) (s_ready s) (s_unconf s)
@@ -646,7 +919,10 @@ Inductive sop :=
 | SStop | SStopAsync | SStopWait | SQuiet | SStored | SAnnounced | SCounts | SDrain | SSleep
 | SApiTx (t : Z) (rel : bool) | SApiFill (n : Z) | SApiResult | SBlockInv | SRestart
 | STxBlock (t : Z) (rel : bool) | SBurstRel (n : Z) | SDelivered (k : Z)
-| SInv (t : Z) | STxAge | SGetData (t : Z).
+| SInv (t : Z) | STxAge | SGetData (t : Z)
+| SUCount (n : Z) | SUPeer (k : Z) | SUAddr (i : Z) | SUWaitConn (i : Z) | SUWaitSeen (i : Z) | SUConns (i : Z)
+| SUListed (i : Z) | SURelease (i : Z) | SUInv (i t : Z) | SUGetData (i t : Z) | SUClose (i : Z)
+| SWaitScan (v : bool) | SBroadcast (t : Z) | SCountsU.
 
 Fixpoint iter {A} (n : nat) (f : A -> A) (x : A) : A := match n with O => x | S n' => iter n' f (f x) end.
 
@@ -687,7 +963,7 @@ Definition with_x (s : scn) (x : sext) : scn :=
       (s_peers s) (s_hold s) (s_held s) (s_ann s) (s_stopcalls s) x.
 Definition seen (s : scn) (t : Z) : bool := existsb (Z.eqb t) (x_seen (s_x s)).
 Definition add_seen (s : scn) (t : Z) : sext :=
-  let x := s_x s in SExt (x_seen x ++ [t]) (x_apin x) (x_apiok x) (x_apierr x) (x_pend x) (x_ptx x) (x_burst x) (x_inv x).
+  let x := s_x s in SExt (x_seen x ++ [t]) (x_apin x) (x_apiok x) (x_apierr x) (x_pend x) (x_ptx x) (x_burst x) (x_inv x) (x_u x) (x_uask x).
 Definition ap_idle (w : sw) : bool := match t_ap (w_thr w) with TNone => true | _ => false end.
 (* one call of Node.HandleTx by the application, and whatever it enables *)
 Definition api_call (s : scn) (w : sw) : sw := ssettle s (sapply w AApiTx).
@@ -707,7 +983,7 @@ Fixpoint api_calls (n : nat) (s : scn) (w : sw) (ok err : Z) : sw * Z * Z :=
 (* announcements of txs by the trusted peer (InvHandler, MemPool.AddRequest, TxTracker): what C14 demands *)
 Definition with_inv (s : scn) (l : list (Z * (Z * (bool * bool)))) : scn :=
   let x := s_x s in
-  with_x s (SExt (x_seen x) (x_apin x) (x_apiok x) (x_apierr x) (x_pend x) (x_ptx x) (x_burst x) l).
+  with_x s (SExt (x_seen x) (x_apin x) (x_apiok x) (x_apierr x) (x_pend x) (x_ptx x) (x_burst x) l (x_u x) (x_uask x)).
 Fixpoint inv_find (t : Z) (l : list (Z * (Z * (bool * bool)))) : option (Z * (bool * bool)) :=
   match l with
   | [] => None
@@ -735,7 +1011,105 @@ Definition inv_age (l : list (Z * (Z * (bool * bool)))) :=
 Definition inv_count (t : Z) (l : list (Z * (Z * (bool * bool)))) : Z :=
   match inv_find t l with Some (n, _) => n | None => 0 end.
 
-Definition sstep (s : scn) (o : sop) : scn * obs :=
+(* per announced tx: 1 asked, 2 also remembered (announced again inside the window), 3 the window has passed *)
+Fixpoint ph_get (t : Z) (l : list (Z * Z)) : Z := match l with [] => 0 | (t', p) :: l' => if t' =? t then p else ph_get t l' end.
+Fixpoint ph_set (t p : Z) (l : list (Z * Z)) : list (Z * Z) :=
+  match l with [] => [(t, p)] | (t', p') :: l' => if t' =? t then (t, p) :: l' else (t', p') :: ph_set t p l' end.
+
+(* ---- the untrusted side of the scenarios: the monitor's transition system, driven deterministically ----
+   What a scripted untrusted peer does decides the outcome of a node's step: a dial to a closed listener fails,
+   a dial to a slow peer hangs until the peer is released, a scanning node that verified its peer stops itself. *)
+Definition node_act (m : mst) (i : nat) (n : unode) : option mact :=
+  match n_st n with
+  | UDial => match nth_error (m_addrs m) (n_addr n) with
+             | Some a => if negb (a_open a) then Some (ANode i false)
+                         else if (a_kind a =? 3) && negb (a_rel a) && negb (n_stop n) then None
+                         else Some (ANode i true)
+             | None => Some (ANode i false)
+             end
+  | UActive => if n_stop n then Some (ANode i true)
+               else if n_scan n then
+                 match nth_error (m_addrs m) (n_addr n) with
+                 | Some a => if a_kind a =? 4 then None else Some (ANode i true)
+                 | None => None
+                 end
+               else None
+  | UDone => None
+  end.
+Fixpoint unode_pick (m : mst) (i : nat) (l : list unode) : option mact :=
+  match l with
+  | [] => None
+  | n :: l' => match node_act m i n with Some a => Some a | None => unode_pick m (S i) l' end
+  end.
+Definition upick (m : mst) : option mact :=
+  if menabled false false m AMon then Some AMon else unode_pick m 0 (m_nodes m).
+Fixpoint udrive (fuel : nat) (m : mst) : mst :=
+  match fuel with
+  | O => m
+  | S f => match upick m with Some a => udrive f (mstep false false m a) | None => m end
+  end.
+Definition usettle_m (m : mst) : mst := udrive 80 m.
+(* time passes: the monitor's sleep ends (not the scan window: that takes an explicit wait) *)
+Definition utime (m : mst) : mst :=
+  let m1 := usettle_m m in
+  usettle_m (match m_pc m1 with MSleep => mstep false false m1 ATimer | _ => m1 end).
+Definition is_mdone (m : mst) : bool := match m_pc m with MDone => true | _ => false end.
+
+Definition with_u (s : scn) (m : mst) : scn :=
+  let x := s_x s in
+  with_x s (SExt (x_seen x) (x_apin x) (x_apiok x) (x_apierr x) (x_pend x) (x_ptx x) (x_burst x) (x_inv x) m (x_uask x)).
+Definition with_uask (s : scn) (l : list (Z * Z)) : scn :=
+  let x := s_x s in
+  with_x s (SExt (x_seen x) (x_apin x) (x_apiok x) (x_apierr x) (x_pend x) (x_ptx x) (x_burst x) (x_inv x) (x_u x) l).
+Definition su (s : scn) : mst := x_u (s_x s).
+
+(* the node of the list that serves peer a (running, not a scanning node) *)
+Fixpoint find_node (a : nat) (i : nat) (l : list unode) : option (nat * unode) :=
+  match l with
+  | [] => None
+  | n :: l' => if Nat.eqb (n_addr n) a && negb (n_scan n) && match n_st n with UActive => true | _ => false end
+               then Some (i, n) else find_node a (S i) l'
+  end.
+(* peer index of an operation: -1 stands for the first peer that has a running node *)
+Fixpoint first_conn (m : mst) (k : nat) (a : nat) : option nat :=
+  match k with
+  | O => None
+  | S k' => match find_node a 0 (m_nodes m) with Some _ => Some a | None => first_conn m k' (S a) end
+  end.
+Definition upeer (m : mst) (i : Z) : option nat :=
+  if i <? 0 then first_conn m (length (m_addrs m)) 0
+  else if i <? zlen (m_addrs m) then Some (Z.to_nat i) else None.
+Definition u_connected (m : mst) (i : Z) : bool :=
+  match upeer m i with Some a => match find_node a 0 (m_nodes m) with Some _ => true | None => false end | None => false end.
+Definition u_seen (m : mst) (a : nat) : bool :=
+  existsb (fun n => Nat.eqb (n_addr n) a && negb (is_dial n)) (m_nodes m) &&
+  match nth_error (m_addrs m) a with Some ad => a_open ad && negb (a_kind ad =? 4) | None => false end.
+Definition u_conn_count (m : mst) (a : nat) : Z :=
+  zlen (filter (fun n => Nat.eqb (n_addr n) a && negb (is_dial n)) (m_nodes m)).
+Definition u_listed (m : mst) (a : nat) : bool :=
+  existsb (fun n => Nat.eqb (n_addr n) a && negb (n_scan n) && n_listed n) (m_nodes m).
+Definition u_running (m : mst) : Z := zlen (filter (fun n => negb (n_scan n) && negb (is_done n)) (m_nodes m)).
+Definition ukey (a : nat) (t : Z) : Z := Z.of_nat a * 100000 + t.
+Definition uask_get (k : Z) (l : list (Z * Z)) : Z := ph_get k l.
+Definition a_tell (a : uaddr) : uaddr := UAddr (a_kind a) (a_score a) false (a_used a) (a_rel a) (a_open a).
+
+(* the mempool's answer to a request by an untrusted connection: ask now (no request yet, or the window has
+   passed) or remember the announcement *)
+Definition inv_due (t : Z) (l : list (Z * (Z * (bool * bool)))) : bool :=
+  match inv_find t l with None => true | Some (_, (_, aged)) => aged end.
+Definition inv_asked (t : Z) (l : list (Z * (Z * (bool * bool)))) :=
+  match inv_find t l with
+  | None => inv_set t (0, (false, false)) l
+  | Some (n, (tr, _)) => inv_set t (n, (tr, false)) l
+  end.
+(* a block confirmed t: nothing remembers it any more *)
+Definition inv_confirm (t : Z) (l : list (Z * (Z * (bool * bool)))) :=
+  match inv_find t l with
+  | None => l
+  | Some (n, _) => inv_set t (n, (false, false)) l
+  end.
+
+Definition sstep0 (s : scn) (o : sop) : scn * obs :=
   let w := s_w s in
   let fin (s' : scn) (ob : obs) := (s', ob) in
   let fin_stop (s' : scn) (ob : obs) := (note_stop s', ob) in
@@ -851,7 +1225,7 @@ Definition sstep (s : scn) (o : sop) : scn * obs :=
       let seen1 := if (s_held s =? 2) && negb e && (0 <=? x_ptx x) then x_seen x ++ [x_ptx x] else x_seen x in
       let s1 := Scn w1 (s_listen s) (s_acc s) (s_popen s) (s_base s) (s_sent s) (s_served s) (s_tip s) (s_ready s) u
                     (s_peers s) 0 0 (s_ann s) (s_stopcalls s)
-                    (SExt seen1 (x_apin x) (x_apiok x) (x_apierr x) 0 (-1) (x_burst x) (x_inv x)) in
+                    (SExt seen1 (x_apin x) (x_apiok x) (x_apierr x) 0 (-1) (x_burst x) (x_inv x) (x_u x) (x_uask x)) in
       let w2 := ssettle s1 w1 in
       (* monitorIncoming now reads what the peer had sent meanwhile *)
       let w3 := iter (Z.to_nat (x_pend x)) (fun w0 => if alive (with_w s1 w0) then deliver s1 w0 [KTx] else w0) w2 in
@@ -895,14 +1269,14 @@ Definition sstep (s : scn) (o : sop) : scn * obs :=
       else fin (with_w s (api_call s w)) [OK; 0; 0]
   | SApiFill n =>
       let '(w1, ok, err) := api_calls (Z.to_nat n) s w 0 0 in
-      fin (with_x (with_w s w1) (SExt (x_seen (s_x s)) n ok err (x_pend (s_x s)) (x_ptx (s_x s)) (x_burst (s_x s)) (x_inv (s_x s)))) [OK; ok + err; b2z (negb (ap_idle w1))]
+      fin (with_x (with_w s w1) (SExt (x_seen (s_x s)) n ok err (x_pend (s_x s)) (x_ptx (s_x s)) (x_burst (s_x s)) (x_inv (s_x s)) (x_u (s_x s)) (x_uask (s_x s)))) [OK; ok + err; b2z (negb (ap_idle w1))]
   | SApiResult =>
       let x := s_x s in
       if ap_idle w then
         (* the call that was waiting has returned (it was queued); the goroutine makes its remaining calls *)
         let waited := if x_apiok x + x_apierr x <? x_apin x then 1 else 0 in
         let '(w1, ok, err) := api_calls (Z.to_nat (x_apin x - x_apiok x - x_apierr x - waited)) s w (x_apiok x + waited) (x_apierr x) in
-        fin (with_x (with_w s w1) (SExt (x_seen x) (x_apin x) ok err (x_pend x) (x_ptx x) (x_burst x) (x_inv x))) [OK; b2z (ap_idle w1); ok; err; 0]
+        fin (with_x (with_w s w1) (SExt (x_seen x) (x_apin x) ok err (x_pend x) (x_ptx x) (x_burst x) (x_inv x) (x_u x) (x_uask x))) [OK; b2z (ap_idle w1); ok; err; 0]
       else fin s [OK; 0; x_apiok x; x_apierr x; 0]
   | SBlockInv =>
       if alive s then
@@ -926,7 +1300,7 @@ Definition sstep (s : scn) (o : sop) : scn * obs :=
               let x := s_x s in
               fin (Scn w3 (s_listen s) (s_acc s) (s_popen s) (s_base s) (base + 1) (s_served s + 1) h (s_ready s) (s_unconf s)
                        (s_peers s) (s_hold s) 2 (s_ann s ++ [h]) (s_stopcalls s)
-                       (SExt (x_seen x) (x_apin x) (x_apiok x) (x_apierr x) (x_pend x) (if new then t else -1) (x_burst x) (x_inv x)))
+                       (SExt (x_seen x) (x_apin x) (x_apiok x) (x_apierr x) (x_pend x) (if new then t else -1) (x_burst x) (x_inv x) (x_u x) (x_uask x)))
                   [OK; 1; 1; 0]
             else
               let w3 := ssettle s (sapply (sapply (sapply w2 (AStep PB KCall 0)) (AStep PB KCall 0)) (AStep PB KEnd 0)) in
@@ -945,7 +1319,7 @@ Definition sstep (s : scn) (o : sop) : scn * obs :=
       let full := (scap <=? x_len (w_ch w1)) && at_send CTx (t_mi (w_thr w1)) in
       fin (Scn w1 (s_listen s) (s_acc s) (s_popen s) (s_base s) (s_sent s) (s_served s) (s_tip s) (s_ready s) (s_unconf s + n)
                (s_peers s) (s_hold s) (s_held s) (s_ann s) (s_stopcalls s)
-               (SExt (x_seen x) (x_apin x) (x_apiok x) (x_apierr x) pend (x_ptx x) (x_burst x + n) (x_inv x))) [OK; b2z full]
+               (SExt (x_seen x) (x_apin x) (x_apiok x) (x_apierr x) pend (x_ptx x) (x_burst x + n) (x_inv x) (x_u x) (x_uask x))) [OK; b2z full]
   | SDelivered k => fin s [OK; zlen (x_seen (s_x s)) + x_burst (s_x s)]
   | SInv t =>
       if alive s && s_ready s then
@@ -960,11 +1334,126 @@ Definition sstep (s : scn) (o : sop) : scn * obs :=
         let w1 := deliver s (deliver s w [KOut; KOut]) [KOut] in
         fin (with_inv (with_w s w1) l) [OK; 1; inv_count t l]
       else fin s [OK; 0; inv_count t (x_inv (s_x s))]
+  | SUCount n => fin (with_u s (mstep false false (su s) (AMWant (Z.to_nat n)))) [OK]
+  | SUPeer k =>
+      (* 1 good (score 5), 2 fresh (never checked), 3 slow dial, 4 silent, 5 good, not stored: told later *)
+      let a := UAddr k (if (k =? 2) || (k =? 5) then 0 else 5) (negb (k =? 2)) false false true in
+      let s1 := with_u s (mstep false false (su s) (AMAddr a)) in
+      fin (Scn (s_w s1) (s_listen s1) (s_acc s1) (s_popen s1) (s_base s1) (s_sent s1) (s_served s1) (s_tip s1) (s_ready s1) (s_unconf s1)
+               (if k =? 5 then s_peers s1 else s_peers s1 + 1) (s_hold s1) (s_held s1) (s_ann s1) (s_stopcalls s1) (s_x s1)) [OK]
+  | SUAddr i =>
+      match upeer (su s) i with
+      | Some a =>
+          if alive s then
+            let w1 := deliver s (deliver s w [KCall]) [KOut] in
+            let m := su s in
+            let s1 := with_u (with_w s w1) (mset_addrs m (upd a a_tell (m_addrs m))) in
+            fin (Scn (s_w s1) (s_listen s1) (s_acc s1) (s_popen s1) (s_base s1) (s_sent s1) (s_served s1) (s_tip s1) (s_ready s1) (s_unconf s1)
+                     (s_peers s1 + 1) (s_hold s1) (s_held s1) (s_ann s1) (s_stopcalls s1) (s_x s1)) [OK]
+          else fin s [OK]
+      | None => fin s [OK]
+      end
+  | SUWaitConn i => let m := utime (su s) in fin (with_u s m) [OK; b2z (u_connected m i)]
+  | SUWaitSeen i =>
+      let m := utime (su s) in
+      fin (with_u s m) [OK; b2z (match upeer m i with Some a => u_seen m a | None => false end)]
+  | SUConns i => fin s [OK; match upeer (su s) i with Some a => u_conn_count (su s) a | None => 0 end]
+  | SUListed i =>
+      match upeer (su s) i with
+      | Some a => fin s [OK; b2z (negb (m_lock (su s))); b2z (u_listed (su s) a)]
+      | None => fin s [OK; 0; 0]
+      end
+  | SURelease i =>
+      match upeer (su s) i with
+      | Some a => fin (with_u s (mstep false false (su s) (AMRelease a))) [OK]
+      | None => fin s [OK]
+      end
+  | SUClose i =>
+      match upeer (su s) i with
+      | Some a =>
+          let m1 := mstep false false (su s) (AMClose a) in
+          let m2 := match find_node a 0 (m_nodes m1) with Some (j, _) => mstep false false m1 (ANodeEnd j) | None => m1 end in
+          fin (with_u s m2) [OK]
+      | None => fin s [OK]
+      end
+  | SUInv i t =>
+      let m := su s in
+      match upeer m i with
+      | Some a =>
+          match find_node a 0 (m_nodes m) with
+          | Some (j, _) =>
+              if s_ready s then
+                if inv_due t (x_inv (s_x s)) then
+                  let ask := ph_set (ukey a t) (uask_get (ukey a t) (x_uask (s_x s)) + 1) (x_uask (s_x s)) in
+                  fin (with_uask (with_inv s (inv_asked t (x_inv (s_x s)))) ask) [OK; 1; uask_get (ukey a t) ask]
+                else fin (with_u s (mstep false false m (AMInv j t))) [OK; 1; uask_get (ukey a t) (x_uask (s_x s))]
+              else fin s [OK; 1; uask_get (ukey a t) (x_uask (s_x s))]
+          | None => fin s [OK; 0; uask_get (ukey a t) (x_uask (s_x s))]
+          end
+      | None => fin s [OK; 0; 0]
+      end
+  | SUGetData i t =>
+      let m := su s in
+      match upeer m i with
+      | Some a =>
+          match find_node a 0 (m_nodes m) with
+          | Some (j, n) =>
+              (* the node's tracker check: every remembered announcement whose request window has passed is asked for *)
+              let due := filter (fun t' => inv_due t' (x_inv (s_x s))) (n_trk n) in
+              let ask := fold_left (fun l t' => ph_set (ukey a t') (uask_get (ukey a t') l + 1) l) due (x_uask (s_x s)) in
+              let inv := fold_left (fun l t' => inv_asked t' l) due (x_inv (s_x s)) in
+              fin (with_uask (with_inv (with_u s (mstep false false m (AMCheck j due))) inv) ask) [OK; 1; uask_get (ukey a t) ask]
+          | None => fin s [OK; 0; uask_get (ukey a t) (x_uask (s_x s))]
+          end
+      | None => fin s [OK; 0; 0]
+      end
+  | SWaitScan v =>
+      let m := su s in
+      let m1 := if v then utime m
+                else match m_pc m with MScan => usettle_m (mstep false false m ATimer) | _ => utime m end in
+      fin (with_u s m1) [OK; b2z (Bool.eqb (m_flag m1) v)]
+  | SBroadcast t =>
+      if stopping w || stopped w then fin s [OK; 1]
+      else fin (with_u s (mstep false false (su s) AMBcast)) [OK; 0]
+  | SCountsU => fin s [OK; u_running (su s)]
   | SRestart =>
       (* a new process on the same storage: what was saved is what it knows *)
       let s1 := Scn sw_init (s_listen s) 0 false (-100) (-1) (s_tip s) (s_tip s) false (s_unconf s)
                     (s_peers s) 0 0 (s_ann s) (-1) (s_x s) in
-      fin (with_w s1 (ssettle s1 sw_init)) [OK]
+      (* the untrusted side of a new Node: the stored addresses with their scores, nothing used, nothing running *)
+      let m := su s in
+      let m0 := MSt MTop false false false false false (m_want m)
+                    (map (fun a => UAddr (a_kind a) (a_score a) (a_checked a) false (a_rel a) (a_open a)) (m_addrs m)) [] false in
+      fin (with_u (with_w s1 (ssettle s1 sw_init)) m0) [OK]
+  end.
+
+(* the run loop's state drives the monitor: a stop request or a lost connection stops it (it stops its nodes and
+   waits for them), the restart starts it again; it looks at the node's in-sync flag; a processed block's
+   clean-up reaches the listed nodes *)
+Definition conn_open (w : sw) : bool := match w_conn w with COpen => true | _ => false end.
+Definition u_sync (s0 s1 : scn) (o : sop) (ob : obs) : scn :=
+  let w0 := s_w s0 in
+  let w1 := s_w s1 in
+  let m := su s1 in
+  let m0 := match o, ob with
+            | STxBlock t _, [_; _; ann; _] => if ann =? 1 then mstep false false m (AMBlock [t]) else m
+            | _, _ => m
+            end in
+  let inv := match o, ob with
+             | STxBlock t _, [_; _; ann; _] => if ann =? 1 then inv_confirm t (x_inv (s_x s1)) else x_inv (s_x s1)
+             | _, _ => x_inv (s_x s1)
+             end in
+  let halted := stopping w1 || stopped w1 in
+  let down := halted || negb (w_gen w1 =? w_gen w0) || negb (conn_open w1) in
+  let m1 := if down && negb (is_mdone m0) then usettle_m (mstep false false m0 AMStop) else m0 in
+  let m2 := if negb halted && is_mdone m1 then mstep false false m1 AMRestart else m1 in
+  let m3 := mstep false false m2 (AMReady (s_ready s1 && conn_open w1 && negb halted)) in
+  with_u (with_inv s1 inv) m3.
+
+Definition sstep (s : scn) (o : sop) : scn * obs :=
+  match o with
+  | SRestart => sstep0 s o
+  | _ => let '(s1, ob) := sstep0 s o in (u_sync s s1 o ob, ob)
   end.
 
 Fixpoint srun_from (s : scn) (ops : list sop) : list obs :=
@@ -989,6 +1478,8 @@ Definition srun (ops : list sop) : list obs := srun_from scn_init ops.
    911 fewer distinct new-tx notifications than relevant txs received from the peer while in sync
    912 a tx announced twice by the trusted peer and not delivered was not asked for again at the peer's next
        activity after the request window (C14)
+   913 an untrusted peer was asked for a tx it had announced after a block confirming that tx was processed (C14)
+   914 an untrusted peer whose connection is up is not in the node's list of untrusted nodes
    897 malformed trace *)
 Fixpoint contiguous_from (h : Z) (l : list Z) : bool :=
   match l with
@@ -997,15 +1488,25 @@ Fixpoint contiguous_from (h : Z) (l : list Z) : bool :=
   | _ => false
   end.
 
-(* per announced tx: 1 asked, 2 also remembered (announced again inside the window), 3 the window has passed *)
-Fixpoint ph_get (t : Z) (l : list (Z * Z)) : Z := match l with [] => 0 | (t', p) :: l' => if t' =? t then p else ph_get t l' end.
-Fixpoint ph_set (t p : Z) (l : list (Z * Z)) : list (Z * Z) :=
-  match l with [] => [(t, p)] | (t', p') :: l' => if t' =? t then (t, p) :: l' else (t', p') :: ph_set t p l' end.
+(* untrusted peers in the monitor's table: key (peer + 2) * 100000 + t holds 10 + requests seen when the peer announced
+   t, 20 + requests once a block confirmed t after that; key (peer + 2) * 100000 + 99999 = 1: the peer's connection is up *)
+Definition mkey (i t : Z) : Z := (i + 2) * 100000 + t.
+Definition ckey (i : Z) : Z := (i + 2) * 100000 + 99999.
+Definition ph_confirm (t : Z) (ph : list (Z * Z)) : list (Z * Z) :=
+  map (fun e => if (100000 <=? fst e) && (fst e mod 100000 =? t) && (10 <=? snd e) && (snd e <? 20) then (fst e, snd e + 10) else e) ph.
+Definition ph_down (ph : list (Z * Z)) : list (Z * Z) :=
+  filter (fun e => negb ((100000 <=? fst e) && (fst e mod 100000 =? 99999))) ph.
+Definition down_op (o : sop) : bool :=
+  match o with
+  | SStop | SStopAsync | SClose | SCloseStop | SRestart | SAge | SRelease true | SSilence => true
+  | _ => false
+  end.
 
 Fixpoint c19_monitor_from (i : Z) (held : bool) (tip : Z) (dl : list Z) (ph : list (Z * Z)) (ops : list sop) (tr : list obs) : option (Z * obs) :=
   match ops, tr with
   | [], [] => None
   | o :: ops', ob :: tr' =>
+      let ph := if down_op o then ph_down ph else ph in
       let next h t := c19_monitor_from (i + 1) h t dl ph ops' tr' in
       let next_d h t d := c19_monitor_from (i + 1) h t d ph ops' tr' in
       let next_p p := c19_monitor_from (i + 1) held tip dl p ops' tr' in
@@ -1026,7 +1527,16 @@ Fixpoint c19_monitor_from (i : Z) (held : bool) (tip : Z) (dl : list Z) (ph : li
       | SStored, [_; x] => if x =? -2 then Some (i, [903]) else next held tip
       | SAnnounced, _ :: l => if contiguous_from 1 l then next held tip else Some (i, [904])
       | SBlocks _, [_; n] => next held (tip + n)
-      | STxBlock _ _, [_; _; ann; _] => next held (tip + ann)
+      | STxBlock t _, [_; _; ann; _] =>
+          c19_monitor_from (i + 1) held (tip + ann) dl (if ann =? 1 then ph_confirm t ph else ph) ops' tr'
+      | SUWaitConn p, [_; c] => if c =? 1 then next_p (ph_set (ckey p) 1 ph) else next_p ph
+      | SUListed p, [_; free; listed] =>
+          if (ph_get (ckey p) ph =? 1) && (free =? 1) && (listed =? 0) then Some (i, [914]) else next_p ph
+      | SUClose p, _ => next_p (filter (fun e => negb (fst e / 100000 =? p + 2)) ph)
+      | SUInv p t, [_; pong; n] => if pong =? 1 then next_p (ph_set (mkey p t) (10 + n) ph) else next_p ph
+      | SUGetData p t, [_; pong; n] =>
+          let q := ph_get (mkey p t) ph in
+          if (pong =? 1) && (20 <=? q) && (q - 20 <? n) then Some (i, [913]) else next_p ph
       | STx t true, [_; d] =>
           if d =? 1 then (if existsb (Z.eqb t) dl then Some (i, [910]) else next_d held tip (t :: dl)) else next held tip
       | SApiTx t true, [_; _; d] =>
